@@ -1,5 +1,152 @@
-(* Eval12.v — evaluation of C12 observations (stub: replaced when C12 is built). *)
-From Verif Require Import Base Sexp.
+(* Eval12.v — evaluation of C12 observations: real goderive vs the model of sortPlugins / dispatch /
+   flag handling / newName, and vs their independent specifications. *)
+From Verif Require Import Base Sexp Prefix.Str Prefix.Dispatch Prefix.Names Prefix.TableFacts.
 Open Scope string_scope.
 
-Definition eval12 (e : sexp) : verdict := bad_line.
+Definition get_str (e : sexp) : option str := get_ns e.
+
+Definition get_plugin (e : sexp) : option plugin :=
+  match e with
+  | L [n; p] => match get_str n, get_str p with
+                | Some n', Some p' => Some (mkP n' p')
+                | _, _ => None
+                end
+  | _ => None
+  end.
+
+Definition get_plugins (e : sexp) : option (list plugin) :=
+  match e with L l => map_opt get_plugin l | _ => None end.
+
+Definition get_pair (e : sexp) : option (str * str) :=
+  match e with
+  | L [n; p] => match get_str n, get_str p with
+                | Some n', Some p' => Some (n', p')
+                | _, _ => None
+                end
+  | _ => None
+  end.
+
+Definition get_pairs (e : sexp) : option (list (str * str)) :=
+  match e with L l => map_opt get_pair l | _ => None end.
+
+Fixpoint index_of (n : str) (ps : list plugin) (i : Z) : Z :=
+  match ps with
+  | [] => (-1)%Z
+  | p :: r => if str_eqb n (pname p) then i else index_of n r (i + 1)%Z
+  end.
+
+Definition idx (ps : list plugin) (p : plugin) : Z := index_of (pname p) ps 0%Z.
+
+Definition mkv (guard : bool) (tag : string) (model : sexp) (model_ok spec_ok : bool) : verdict :=
+  {| v_known := true; v_model_ok := model_ok; v_spec_ok := spec_ok;
+     v_guard := guard; v_model := model; v_tag := tag |}.
+
+(* --- sort: the contract of sort.Slice, checked on the real output --- *)
+Fixpoint all_before (a : plugin) (l : list plugin) : bool :=
+  match l with [] => true | b :: t => before a b && all_before a t end.
+Fixpoint sorted_b (l : list plugin) : bool :=
+  match l with [] => true | a :: t => all_before a t && sorted_b t end.
+
+Fixpoint longest_first_b (l : list plugin) : bool :=
+  match l with
+  | [] => true
+  | a :: t => forallb (fun b => Nat.leb (List.length (pprefix b)) (List.length (pprefix a))) t && longest_first_b t
+  end.
+
+Fixpoint count_z (x : Z) (l : list Z) : nat :=
+  match l with [] => 0 | y :: t => (if Z.eqb x y then 1 else 0) + count_z x t end.
+Definition is_perm_of_range (n : nat) (l : list Z) : bool :=
+  Nat.eqb (List.length l) n && forallb (fun i => Nat.eqb (count_z (Z.of_nat i) l) 1) (seq 0 n).
+
+Definition nth_plugin (ps : list plugin) (i : Z) : option plugin :=
+  if (i <? 0)%Z then None else nth_error ps (Z.to_nat i).
+
+Definition nested_b (ps : list plugin) : bool := negb (no_nesting_b ps).
+
+Definition size_tag (n : nat) : string :=
+  if Nat.leb n 2 then "n<=2" else if Nat.leb n 12 then "n<=12" else "n>12".
+
+Definition eval_sort (pse reale : sexp) : verdict :=
+  match get_plugins pse, get_zs reale with
+  | Some ps, Some real =>
+      let guard := distinct_prefixes_b ps && distinct_names_b ps in
+      let model := map (idx ps) (sort_plugins ps) in
+      let model_ok := sexp_eqb (of_zs model) (of_zs real) in
+      (* what the property needs of the order: a permutation, longest prefixes first (the direction
+         of the tie-break among equally long prefixes is the model's business, not the property's) *)
+      let spec_ok :=
+        is_perm_of_range (List.length ps) real &&
+        match map_opt (nth_plugin ps) real with
+        | Some l => longest_first_b l
+        | None => false
+        end in
+      mkv guard ("sort/" ++ size_tag (List.length ps) ++ (if nested_b ps then "/nested" else "/flat"))
+          (of_zs model) model_ok spec_ok
+  | _, _ => bad_line
+  end.
+
+(* --- dispatch under flags --- *)
+Definition count_matches (ps : list plugin) (name : str) : nat :=
+  List.length (filter (fun p => is_prefix (pprefix p) name) ps).
+
+Definition eval_dispatch (pse ge ovse ne reale : sexp) : verdict :=
+  match get_plugins pse, get_str ge, get_pairs ovse, get_str ne, get_num reale with
+  | Some ps, Some g, Some ovs, Some name, Some real =>
+      let eff := map (effective g ovs) ps in
+      let guard := distinct_prefixes_b eff && distinct_names_b ps in
+      let out (o : option plugin) : Z := match o with Some p => idx ps p | None => (-1)%Z end in
+      let model := out (dispatch (sort_plugins eff) name) in
+      let spec := out (spec_dispatch eff name) in
+      let k := count_matches eff name in
+      mkv guard
+          ("dispatch/" ++ (match k with 0 => "none" | 1 => "single" | _ => "nested" end)%nat
+           ++ (if str_eqb g derive_head then "" else "/global")
+           ++ (match ovs with [] => "" | _ => "/override" end))
+          (Num model) (Z.eqb model real) (Z.eqb spec real)
+  | _, _, _, _, _ => bad_line
+  end.
+
+(* --- newName --- *)
+Definition mem_str (l : list str) (x : str) : bool := existsb (str_eqb x) l.
+
+Fixpoint find_cand (fuel i : nat) (prefix name real : str) : option nat :=
+  match fuel with
+  | O => None
+  | S f => if str_eqb (cand prefix name i) real then Some i else find_cand f (S i) prefix name real
+  end.
+
+Definition mint_fuel : nat := 200.
+
+Definition eval_mint (pe ne te reale : sexp) : verdict :=
+  match get_str pe, get_str ne, te, get_str reale with
+  | Some prefix, Some name, L tl, Some real =>
+      match map_opt get_str tl with
+      | Some taken =>
+          let model := new_name mint_fuel prefix name (mem_str taken) in
+          let model_ok := match model with Some m => str_eqb m real | None => false end in
+          let pos := find_cand mint_fuel 0 prefix name real in
+          let spec_ok :=
+            match pos with
+            | Some i => negb (mem_str taken real) &&
+                        forallb (fun j => mem_str taken (cand prefix name j)) (seq 0 i)
+            | None => false
+            end in
+          let tag := match pos with
+                     | Some 0 => "mint/bare-prefix"
+                     | Some 1 => "mint/underscore"
+                     | Some (S j) => if Nat.ltb (List.length name) j then "mint/numbered" else "mint/type-initials"
+                     | None => "mint/not-a-candidate"
+                     end%nat in
+          mkv true tag (match model with Some m => of_ns m | None => Sym "fuel" end) model_ok spec_ok
+      | None => bad_line
+      end
+  | _, _, _, _ => bad_line
+  end.
+
+Definition eval12 (e : sexp) : verdict :=
+  match e with
+  | L [Sym k; a; b] => if String.eqb k "sort" then eval_sort a b else bad_line
+  | L [Sym k; a; b; c; d] => if String.eqb k "mint" then eval_mint a b c d else bad_line
+  | L [Sym k; a; b; c; d; r] => if String.eqb k "dispatch" then eval_dispatch a b c d r else bad_line
+  | _ => bad_line
+  end.
